@@ -94,3 +94,12 @@ CLAIMED["C17"] = dict(category=_MC,
          "slice_entities are run; TLC checks that a manifest exists for every strictly valid set (except the documented, explicit refusal for policies using entity tags), that the "
          "sliced store is a sub-store (nothing invented), and that reference authorization over it - and the real response over it - equal the full-store response.",
     note="feature entity-manifest (deprecated upstream, still in scope); policies using tags are refused by the analysis with an explicit error and are therefore outside the claim.")
+ENGINES[0]["serves_properties"].append("C19")
+CLAIMED["C19"] = dict(category=_MC,
+    text="Ffi.tla is the JSON/FFI front end with its thread-local caches as a state machine (preparse registers a source iff it parses and changes nothing on failure; a stateful call "
+         "answers what the stateless call with the registered sources inlined answers; a stateless call answers what the Rust API answers: failure for unparsable sources, an "
+         "undeclared action under a schema, or a non-conformant request when validateRequest, otherwise the reference response). TLC explores all 400 cache states over 2 names and "
+         "emits all 32000 (state, operation) pairs; each runs as a history with fresh names through preparse_policy_set / preparse_schema / stateful_is_authorized / "
+         "is_authorized_json and the Rust API; TLC folds the machine over each recorded history.",
+    note="complete for the 2-name cache at the design level; conformance on a seeded sample (quick) or all pairs (thorough) plus random histories over 4 names. "
+         "validate/check-parse/convert/format FFI entry points and the CLI are not driven yet.")
